@@ -93,6 +93,8 @@ def slice_with_int_dask_array(x, index):
     """
     from dask_array._collection import Array
 
+    if any(idx is None for idx in index):
+        raise NotImplementedError("Slicing with a dask.array of ints and None (newaxis) in one index is not supported")
     assert len(index) == x.ndim
     fancy_indexes = [
         isinstance(idx, (tuple, list)) or (isinstance(idx, (np.ndarray, Array)) and idx.ndim > 0) for idx in index
@@ -135,6 +137,9 @@ def slice_with_int_dask_array_on_axis(x, idx, axis):
 
     if np.isnan(x.chunks[axis]).any():
         raise NotImplementedError("Slicing an array with unknown chunks with a dask.array of ints is not supported")
+    # ``offset`` and ``x_chunks`` below are literals of x's current layout:
+    # pin it, so a rewrite of x onto other chunks cannot leave them out of step
+    x = x.freeze_chunks()
     x_axes = tuple(range(x.ndim))
     idx_axes = (x.ndim,)  # arbitrary index not already in x_axes
     offset_axes = (axis,)
@@ -179,7 +184,10 @@ def slice_with_int_dask_array_on_axis(x, idx, axis):
         dtype=x.dtype,
         meta=x._meta,
     )
-    return y
+    # ``p`` pairs every block of x with every block of idx: its blocks have x's
+    # rank, not the rank it advertises, so it cannot be indexed like an array.
+    # Keep later slices above ``y`` instead of letting them be pushed into p.
+    return y.freeze_chunks()
 
 
 class ArrayOffsetDep(ArrayBlockwiseDep):
